@@ -3,6 +3,8 @@ package props
 import (
 	"context"
 	"fmt"
+	"google.golang.org/genproto/googleapis/api/annotations"
+	"google.golang.org/genproto/googleapis/api/serviceconfig"
 	"net/http"
 	"regexp"
 	"sort"
@@ -96,6 +98,17 @@ func (t *tagImpl) Stream(c *dyn.Call) error { return status.Error(codes.Unimplem
 func (w *bWorld) newBackend(name string, files []protoreflect.FileDescriptor, svcs []string) *env.Backend {
 	b := env.NewBackend(name, files, svcs)
 	b.Unary = func(ctx context.Context, method string, req, reply proto.Message) error {
+		// like a real gRPC server: a service this back-end does not list is not served by it,
+		// whatever the descriptor files it hands out through reflection declare
+		listed := false
+		for _, sv := range b.Services() {
+			if strings.HasPrefix(method, "/"+sv+"/") {
+				listed = true
+			}
+		}
+		if !listed {
+			return status.Errorf(codes.Unimplemented, "unknown service %s", method)
+		}
 		r := reply.ProtoReflect()
 		r.Set(r.Descriptor().Fields().ByName("s"), protoreflect.ValueOfString(name+"|"+method))
 		return nil
@@ -205,8 +218,19 @@ type c11Sys struct {
 	localReg bool
 }
 
+// c11Config: one service-config rule per service (GET /cfg/<svc>/{s} on M1). Rules that come
+// from the configuration must follow the live registration set like annotated ones do: bound
+// again when a method gets its first owner back.
+func c11Config() larking.MuxOption {
+	sc := &serviceconfig.Service{Http: &annotations.Http{}}
+	for _, svc := range []string{"S1", "S2", "S3", "S4"} {
+		sc.Http.Rules = append(sc.Http.Rules, &annotations.HttpRule{Selector: "vb." + svc + ".M1", Pattern: &annotations.HttpRule_Get{Get: "/cfg/" + strings.ToLower(svc) + "/{s}"}})
+	}
+	return larking.ServiceConfigOption(sc)
+}
+
 func newC11Sys(w *bWorld) *c11Sys {
-	m, err := larking.NewMux(larking.FilesOption(w.reg))
+	m, err := larking.NewMux(larking.FilesOption(w.reg), c11Config())
 	if err != nil {
 		panic(err)
 	}
@@ -305,7 +329,9 @@ type c11Probe struct {
 	run  func(m http.Handler) (served string, code int, panicked string)
 }
 
-func (w *bWorld) probes() []c11Probe {
+func (w *bWorld) probes() []c11Probe { return w.probesFor("S1", "S2") }
+
+func (w *bWorld) probesFor(svcs ...string) []c11Probe {
 	// decode returns the owner tag that answered; the answer also names the method the owner
 	// was invoked with: if that is not the method the request was for, the result is
 	// "<owner> as <method>", which matches no owner.
@@ -329,7 +355,7 @@ func (w *bWorld) probes() []c11Probe {
 	reqMsg := dynamicpb.NewMessage(w.req)
 	pb, _ := proto.Marshal(reqMsg)
 	var out []c11Probe
-	for _, svc := range []string{"S1", "S2"} {
+	for _, svc := range svcs {
 		svc := svc
 		route := "/" + strings.ToLower(svc)
 		out = append(out,
@@ -355,6 +381,16 @@ func (w *bWorld) probes() []c11Probe {
 			}},
 			c11Probe{name: "DELETE " + route + "/x (additional binding, other verb)", svc: svc, run: func(m http.Handler) (string, int, string) {
 				r := serveSimple(m, "DELETE", route+"/x", "")
+				if r.Panicked {
+					return "", 0, r.Panic
+				}
+				if r.Code == 200 {
+					return decode(r.Body, true, "/vb."+svc+"/M1"), r.Code, ""
+				}
+				return "", r.Code, ""
+			}},
+			c11Probe{name: "GET /cfg" + route + "/x (service-config rule)", svc: svc, run: func(m http.Handler) (string, int, string) {
+				r := serveSimple(m, "GET", "/cfg"+route+"/x", "")
 				if r.Panicked {
 					return "", 0, r.Panic
 				}
@@ -509,7 +545,7 @@ func runC11(c *Ctx) {
 	if c.Thorough() {
 		maxDepth = 8
 	}
-	r.Rule(fmt.Sprintf("breadth-first search over histories of {RegisterService(local S1), RegisterConn(b1:S1 | b2:S1+S2 | b3:S2), DropConn(b1|b2|b3), b2 drops S2 and re-registers, b2 offers S2 again and re-registers, DropConn(never registered)} to depth %d (or closure of the state set); a state is the shortest history reaching it, re-executed on a fresh Mux with fresh scripted back-ends; states are merged on (reference registry, canonical fingerprint of the implementation snapshot); after every transition 10 probes (HTTP rule route, two additional bindings, implicit route, gRPC × 2 services) × every handler pick of rand.Intn", maxDepth))
+	r.Rule(fmt.Sprintf("breadth-first search over histories of {RegisterService(local S1), RegisterConn(b1:S1 | b2:S1+S2 | b3:S2), DropConn(b1|b2|b3), b2 drops S2 and re-registers, b2 offers S2 again and re-registers, DropConn(never registered)} to depth %d (or closure of the state set); a state is the shortest history reaching it, re-executed on a fresh Mux with fresh scripted back-ends; states are merged on (reference registry, canonical fingerprint of the implementation snapshot); after every transition 12 probes (HTTP rule route, two additional bindings, a service-config rule, implicit route, gRPC × 2 services) × every handler pick of rand.Intn", maxDepth))
 	r.Assume("back-ends are scripted (never-dialled grpc.ClientConn whose interceptors answer reflection from descriptors and data calls from a script); validated against real grpc-go servers by the conformance pass", "RegisterService of the same local service twice is not in the alphabet")
 	w := newBWorld()
 	probes := w.probes()
@@ -573,10 +609,208 @@ done:
 	r.Set("depth_reached", depthReached)
 	r.AddStates(states)
 	r.AddTransitions(transitions)
+	c11SharedFile(c, w, maxDepth)
 	c11Conformance(c, w)
 }
 
+// ---- second world: one descriptor file, two services, two back-ends that each serve one ----
+//
+// vb/s34.proto declares S3 and S4. Back-end x4 serves (lists) only S3, back-end x5 only S4;
+// both hand out the whole file through reflection, as grpc-go's reflection service does. A
+// request for S4 must only ever reach x5.
+
+const (
+	opRegX4 = iota
+	opRegX5
+	opDropX4
+	opDropX5
+	nOpsX
+)
+
+var opNamesX = []string{"RegisterConn(x4: lists S3, file declares S3+S4)", "RegisterConn(x5: lists S4, same file)", "DropConn(x4)", "DropConn(x5)"}
+
+func (w *bWorld) sharedFile() protoreflect.FileDescriptor {
+	f := dyn.File{Name: "vb/s34.proto", Pkg: "vb", Deps: []protoreflect.FileDescriptor{w.msgs}}
+	for _, svc := range []string{"S3", "S4"} {
+		route := "/" + strings.ToLower(svc)
+		f.Services = append(f.Services, dyn.Service{Name: svc, Methods: []dyn.Method{
+			{Name: "M1", In: "Req", Out: "Rsp", Rule: &dyn.Rule{Kind: "get", Path: route + "/{s}", Add: []dyn.Rule{{Kind: "get", Path: route + "alt/{s}"}, {Kind: "delete", Path: route + "/{s}"}}}},
+			{Name: "M2", In: "Req", Out: "Rsp", Rule: &dyn.Rule{Kind: "post", Path: route, Body: "*"}},
+		}})
+	}
+	fd, _, err := f.Build()
+	if err != nil {
+		panic(err)
+	}
+	return fd
+}
+
+type c11CaseX struct {
+	World   string   `json:"world"`
+	History []int    `json:"history"`
+	Ops     []string `json:"ops"`
+}
+
+// c11CheckX replays a history of the second world on a fresh Mux and checks the last step.
+func c11CheckX(w *bWorld, f34 protoreflect.FileDescriptor, history []int, probes []c11Probe) (viol []report.Violation, key string, picks int64) {
+	m, err := larking.NewMux(larking.FilesOption(w.reg), c11Config())
+	if err != nil {
+		panic(err)
+	}
+	x := [2]*env.Backend{
+		w.newBackend("x4", []protoreflect.FileDescriptor{f34}, []string{"vb.S3"}),
+		w.newBackend("x5", []protoreflect.FileDescriptor{f34}, []string{"vb.S4"}),
+	}
+	defer x[0].Conn().Close()
+	defer x[1].Conn().Close()
+	reg := [2]bool{}
+	mk := func(oracle, note string) {
+		var ops []string
+		for _, o := range history {
+			ops = append(ops, opNamesX[o])
+		}
+		viol = append(viol, report.Violation{Oracle: oracle, Key: fmt.Sprintf("%s shared-file history=%v", oracle, history), Case: c11CaseX{World: "shared-file", History: append([]int(nil), history...), Ops: ops}, Note: note})
+	}
+	for step, op := range history {
+		var got, want string
+		p, txt := guard(func() {
+			switch op {
+			case opRegX4, opRegX5:
+				if err := m.RegisterConn(context.Background(), x[op-opRegX4].Conn()); err != nil {
+					got = "error: " + err.Error()
+				}
+				reg[op-opRegX4] = true
+			case opDropX4, opDropX5:
+				got = fmt.Sprint(m.DropConn(context.Background(), x[op-opDropX4].Conn()))
+				want = fmt.Sprint(reg[op-opDropX4])
+				reg[op-opDropX4] = false
+			}
+		})
+		if step != len(history)-1 {
+			continue
+		}
+		if p {
+			mk("operation-panic", opNamesX[op]+": "+txt)
+			return viol, "panicked", picks
+		}
+		if got != want {
+			mk("operation-result", fmt.Sprintf("%s returned %q, reference says %q", opNamesX[op], got, want))
+		}
+	}
+	owners := map[string][]string{}
+	if reg[0] {
+		owners["S3"] = []string{"x4"}
+	}
+	if reg[1] {
+		owners["S4"] = []string{"x5"}
+	}
+	for _, pr := range probes {
+		own := owners[pr.svc]
+		maxN := 1
+		for pick := 0; pick < maxN; pick++ {
+			vrand.Override = func(n int) int {
+				if n > maxN {
+					maxN = n
+				}
+				if pick < n {
+					return pick
+				}
+				return 0
+			}
+			before := [2]int{x[0].UnaryCalls, x[1].UnaryCalls}
+			served, code, pan := pr.run(m)
+			vrand.Override = nil
+			picks++
+			if pan != "" {
+				mk("probe-panic", pr.name+": "+pan)
+				break
+			}
+			// who was asked, whatever the answer was
+			for i, name := range []string{"x4", "x5"} {
+				if x[i].UnaryCalls != before[i] && !(len(own) == 1 && own[0] == name) {
+					mk("delivered-to-a-back-end-not-serving-it", fmt.Sprintf("%s (handler pick %d) was sent to %s, which does not list vb.%s; live back-ends of vb.%s: %v", pr.name, pick, name, pr.svc, pr.svc, own))
+				}
+			}
+			if len(own) == 0 {
+				if served != "" {
+					mk("served-by-dropped-or-unregistered", fmt.Sprintf("%s answered by %q although vb.%s has no live back-end", pr.name, served, pr.svc))
+				} else if !(code == 404 || code == 501 || code == 1000+int(codes.Unimplemented) || code == 1000+int(codes.NotFound)) {
+					mk("unregistered-status", fmt.Sprintf("%s: status %d, want NotFound/Unimplemented", pr.name, code))
+				}
+				continue
+			}
+			if served != own[0] {
+				mk("live-method-unserved", fmt.Sprintf("%s (handler pick %d): status %d, answered by %q although vb.%s is served by %v", pr.name, pick, code, served, pr.svc, own))
+			}
+		}
+	}
+	fp := larking.VerifFingerprint(m.VerifSnapshot())
+	names := map[string]string{fmt.Sprintf("%p", x[0].Conn()): "x4", fmt.Sprintf("%p", x[1].Conn()): "x5"}
+	idx := map[string]string{}
+	fp = ptrRe.ReplaceAllStringFunc(fp, func(p string) string {
+		if n, ok := names[p]; ok {
+			return n
+		}
+		if v, ok := idx[p]; ok {
+			return v
+		}
+		idx[p] = fmt.Sprintf("h%d", len(idx))
+		return idx[p]
+	})
+	return viol, fmt.Sprintf("%v||%s", reg, fp), picks
+}
+
+// c11SharedFile: breadth-first search over the second world.
+func c11SharedFile(c *Ctx, w *bWorld, maxDepth int) {
+	r := c.Run
+	f34 := w.sharedFile()
+	probes := w.probesFor("S3", "S4")
+	seen := map[string]bool{}
+	_, k0, _ := c11CheckX(w, f34, nil, probes)
+	seen[k0] = true
+	frontier := [][]int{nil}
+	var states, transitions int64 = 1, 0
+	for depth := 1; depth <= maxDepth && len(frontier) > 0; depth++ {
+		var next [][]int
+		for _, h0 := range frontier {
+			for op := 0; op < nOpsX; op++ {
+				h := append(append([]int{}, h0...), op)
+				viol, k, picks := c11CheckX(w, f34, h, probes)
+				transitions++
+				r.Eval(picks)
+				for _, v := range viol {
+					r.Violation(v)
+					r.Outcome("FAIL:" + v.Oracle)
+				}
+				if len(viol) > 0 || seen[k] {
+					continue
+				}
+				r.Outcome("shared-file transition-ok:" + opNamesX[op])
+				seen[k] = true
+				states++
+				r.Distinct("shared-file|" + k)
+				next = append(next, h)
+			}
+		}
+		frontier = next
+	}
+	r.AddStates(states)
+	r.AddTransitions(transitions)
+	r.Set("shared_file_world", map[string]any{"states": states, "transitions": transitions, "closed": len(frontier) == 0, "what": "one descriptor file declaring S3 and S4; back-end x4 lists only S3, x5 only S4; histories over RegisterConn/DropConn of both; 12 probes x every handler pick; a request must only be sent to a back-end that lists its service"})
+}
+
 func replayC11(c *Ctx, v report.Violation) {
+	var tx c11CaseX
+	if remarshal(v.Case, &tx) && tx.World == "shared-file" {
+		w := newBWorld()
+		viol, _, _ := c11CheckX(w, w.sharedFile(), tx.History, w.probesFor("S3", "S4"))
+		fmt.Printf("replay: shared-file history=%v -> %d violations\n", tx.Ops, len(viol))
+		for _, x := range viol {
+			fmt.Printf("replay: %s: %s\n", x.Oracle, truncS(x.Note, 300))
+			c.Run.Violation(x)
+		}
+		return
+	}
 	var tc c11Case
 	if !remarshal(v.Case, &tc) {
 		fmt.Println("replay: cannot decode case")
